@@ -98,11 +98,20 @@ def solve(ob, timeout_ms, both, extra_axioms=()):
     for a in extra_axioms:
         s.add(a)
     s.add(z3.Not(ob.goal))
+    structural = z3.is_false(z3.simplify(ob.goal))
+    if structural:
+        s.set("timeout", min(int(timeout_ms), 5000))
     try:
         r = s.check()
     except z3.Z3Exception as e:
         r = z3.unknown
     res = {"status": str(r), "solver": "z3-" + z3.get_version_string(), "time": time.time() - t0}
+    if structural and r == z3.unknown:
+        # the clause is a plain `False` (a structural / ghost check failed) on a path whose branches were each
+        # found feasible during symbolic execution: refuted, although no model of the quantified hypotheses is built
+        res.update(status="sat", model={}, detail="structural clause false on an explored path; hypotheses: " + s.reason_unknown())
+        res["smt2"] = s.to_smt2()
+        return res
     if r == z3.sat:
         m = s.model()
         res["model"] = {d.name(): str(m[d])[:300] for d in m.decls()}
